@@ -46,6 +46,7 @@ class FnInfo:
         self.props = props
         self.known = known
         self.kind = kind          # 'body' (real body spliced) or 'lemma' (written in template)
+        self.simple = name.split("::")[-1]
         self.start = None         # first generated line (1-based)
         self.end = None
         self.header_start = None
@@ -277,7 +278,8 @@ def splice(template_path, repo_root, canary=False):
                 raise LostAnchor(f"{kv['fn']}: real parameters {body.params} differ from the contract's {expected}")
             apply_directives(body, directives, unit)
             text, linemap = body.render()
-            info = FnInfo(kv.get("name", tname), [p for p in kv.get("props", "").split(",") if p], kv.get("known"), "body")
+            info = FnInfo(kv.get("name", kv["fn"].split(" for ")[-1]), [p for p in kv.get("props", "").split(",") if p], kv.get("known"), "body")
+            info.simple = tname
             info.src = kv["src"]
             info.qual = kv["fn"]
             info.header_start = h + 1
